@@ -18,18 +18,28 @@ package grandpa
 //              equivocation bookkeeping
 // Byzantine voters are scripted: any vote, any round, any number of times.
 //
-// line:  n=<voters> byz=<i,j,..|-> tree=<p1,p2,..|->|<op>;<op>;...
+// Authority sets: set 0 consists of the keys 0..n-1; `chg` announces, at a block of the tree, the change from the
+// newest set to a new voter list.  Every honest voter's GrandpaState fake then answers NextGrandpaAuthorityChange
+// with that block's number for chains through it (the real code caps its votes there) and moves to the next set id
+// when the voter finalises that block or a descendant; the real initiateRound/updateAuthorities installs the new
+// voter list in the Service.  Keys that are Byzantine, or that are NOT members of the set they sign for (retired
+// authorities), are scripted.
+//
+// line:  n=<voters of set 0> byz=<i,j,..|-> tree=<p1,p2,..|->|<op>;<op>;...
 //   tree   block 0 is the root; block i (i>=1) has parent p_i < i; header number = depth
+//          chg b<k> v<a>,v<b>,..  the newest set hands over to a new set with these voters at block k
 //   op     best v<i> b<k>      BestBlockHeader of honest voter i becomes block k (initially the root)
 //          pv v<i>             honest voter i prevotes            (allocates the next message id)
 //          pc v<i>             honest voter i runs the precommit gate and, if it passes, precommits (allocates an id)
-//          bv <pv|pc> v<j> r<q> b<k>   Byzantine voter j casts that vote for round q        (allocates an id)
+//          bv <pv|pc> v<j> [s<t>] r<q> b<k>   scripted key j (Byzantine, or not a member of set t) casts that vote for
+//                              round q of set t (default set 0)                               (allocates an id)
 //          d m<id> v<i>        message <id> is delivered to honest voter i
 //          fin v<i>            honest voter i attempts to finalise its round
 //        thr <n>               State.threshold() of n voters (alone on a line)
 // output: one token per op joined by ';', then ';safe=<0|1>' (1: all blocks finalised by honest voters lie on one chain)
 //   best: ok|nobest (the block does not descend from the voter's finalised head)   pv: pv=b<k>|skip|pv=err   pc: pc=b<k>|wait|skip|pc=err|pc=panic   bv: ok
-//   d: ok|eq|round|notdesc|self|nomsg|err   fin: fin=b<k>|no|skip|fin=err
+//   d: ok|eq|round|set|notvoter|notdesc|self|nomsg|err   fin: fin=b<k>|no|skip|fin=err   chg: ok
+//   pv / pc / fin of a key that is not a voter of its Service's current set: notauth
 
 import (
 	"encoding/json"
@@ -61,17 +71,43 @@ var (
 	c22ErrRuntime = errors.New("c22: no runtime")
 	c22ErrNoPc    = errors.New("c22: no precommits stored")
 	c22ErrPanic   = errors.New("c22: the code panicked")
+	c22ErrNoSet   = errors.New("c22: no such authority set")
 )
+
+// c22World is what all voters of a schedule share: the tree, the voter lists of the sets and the handover blocks.
+type c22World struct {
+	tree    *c22Tree
+	sets    [][]int // sets[t] = keys of set t, in voter order
+	changes []int   // changes[t] = block at which set t hands over to set t+1
+}
+
+type c22SetRound struct{ set, round uint64 }
 
 type c22BlockState struct {
 	BlockState // every method that is not overridden panics (nil interface)
 	mu         sync.Mutex
+	w          *c22World
 	tree       *c22Tree
 	best       int
-	finByRound map[uint64]common.Hash
-	highest    uint64
+	head       int // the latest finalised block
+	curSet     uint64
+	finByRound map[c22SetRound]common.Hash
+	highest    c22SetRound
 	hasCalls   int
 	finCalls   []int
+}
+
+// pendingChange returns the handover block of the voter's current set if the change is still ahead of its
+// finalised head.
+func (b *c22BlockState) pendingChange() (int, bool) {
+	if int(b.curSet) >= len(b.w.changes) {
+		return 0, false
+	}
+	x := b.w.changes[b.curSet]
+	if done, err := b.tree.bt.IsDescendantOf(b.tree.headers[x].Hash(), b.tree.headers[b.head].Hash()); err != nil || done {
+		return 0, false
+	}
+	return x, true
 }
 
 func (b *c22BlockState) GenesisHash() common.Hash { return b.tree.headers[0].Hash() }
@@ -103,8 +139,8 @@ func (b *c22BlockState) HasFinalisedBlock(round, setID uint64) (bool, error) {
 	b.mu.Lock()
 	defer b.mu.Unlock()
 	b.hasCalls++
-	_, ok := b.finByRound[round]
-	return ok && setID == 0, nil
+	_, ok := b.finByRound[c22SetRound{setID, round}]
+	return ok, nil
 }
 
 func (b *c22BlockState) hasCount() int {
@@ -113,17 +149,19 @@ func (b *c22BlockState) hasCount() int {
 	return b.hasCalls
 }
 
-func (b *c22BlockState) GetHighestRoundAndSetID() (uint64, uint64, error) { return b.highest, 0, nil }
+func (b *c22BlockState) GetHighestRoundAndSetID() (uint64, uint64, error) {
+	return b.highest.round, b.highest.set, nil
+}
 
 func (b *c22BlockState) GetFinalisedHeader(round, setID uint64) (*types.Header, error) {
-	if h, ok := b.finByRound[round]; ok && setID == 0 {
+	if h, ok := b.finByRound[c22SetRound{setID, round}]; ok {
 		return b.GetHeader(h)
 	}
 	return nil, c22ErrNoFin
 }
 
 func (b *c22BlockState) GetHighestFinalisedHeader() (*types.Header, error) {
-	return b.GetFinalisedHeader(b.highest, 0)
+	return b.GetFinalisedHeader(b.highest.round, b.highest.set)
 }
 
 func (b *c22BlockState) GetRuntime(common.Hash) (runtime.Instance, error) { return nil, c22ErrRuntime }
@@ -135,44 +173,76 @@ func (b *c22BlockState) SetFinalisedHash(h common.Hash, round, setID uint64) err
 		i = -1
 	}
 	b.finCalls = append(b.finCalls, i)
-	b.finByRound[round] = h
-	if round > b.highest {
-		b.highest = round
+	b.finByRound[c22SetRound{setID, round}] = h
+	if setID > b.highest.set || (setID == b.highest.set && round > b.highest.round) {
+		b.highest = c22SetRound{setID, round}
+	}
+	if i >= 0 {
+		// finalising the handover block (or a descendant) enacts the authority change
+		if int(b.curSet) < len(b.w.changes) {
+			x := b.w.changes[b.curSet]
+			if on, err := b.tree.bt.IsDescendantOf(b.tree.headers[x].Hash(), h); err == nil && on {
+				b.curSet++
+			}
+		}
+		b.head = i
 	}
 	return nil
 }
 
 type c22GrandpaState struct {
 	GrandpaState
-	pcs map[uint64][]SignedVote
-	pvs map[uint64][]SignedVote
+	bs  *c22BlockState
+	pcs map[c22SetRound][]SignedVote
+	pvs map[c22SetRound][]SignedVote
 }
 
-func (*c22GrandpaState) NextGrandpaAuthorityChange(common.Hash, uint) (uint, error) {
+// NextGrandpaAuthorityChange: the number of the handover block when it lies on the chain of the given block.
+func (g *c22GrandpaState) NextGrandpaAuthorityChange(hash common.Hash, _ uint) (uint, error) {
+	if x, ok := g.bs.pendingChange(); ok {
+		xh := g.bs.tree.headers[x]
+		if on, err := g.bs.tree.bt.IsDescendantOf(xh.Hash(), hash); err == nil && on {
+			return xh.Number, nil
+		}
+	}
 	return 0, fmt.Errorf("c22: %w", state.ErrNoNextAuthorityChange)
 }
-func (*c22GrandpaState) GetCurrentSetID() (uint64, error) { return 0, nil }
-func (*c22GrandpaState) GetLatestRound() (uint64, error)  { return 0, nil }
-func (*c22GrandpaState) SetLatestRound(uint64) error      { return nil }
-func (g *c22GrandpaState) SetPrevotes(round, _ uint64, v []SignedVote) error {
-	g.pvs[round] = v
+func (g *c22GrandpaState) GetCurrentSetID() (uint64, error) { return g.bs.curSet, nil }
+func (g *c22GrandpaState) GetAuthorities(setID uint64) ([]types.GrandpaVoter, error) {
+	if int(setID) >= len(g.bs.w.sets) {
+		return nil, c22ErrNoSet
+	}
+	return c22Voters(g.bs.w.sets[setID]), nil
+}
+func (*c22GrandpaState) GetLatestRound() (uint64, error) { return 0, nil }
+func (*c22GrandpaState) SetLatestRound(uint64) error     { return nil }
+func (g *c22GrandpaState) SetPrevotes(round, set uint64, v []SignedVote) error {
+	g.pvs[c22SetRound{set, round}] = v
 	return nil
 }
-func (g *c22GrandpaState) SetPrecommits(round, _ uint64, v []SignedVote) error {
-	g.pcs[round] = v
+func (g *c22GrandpaState) SetPrecommits(round, set uint64, v []SignedVote) error {
+	g.pcs[c22SetRound{set, round}] = v
 	return nil
 }
-func (g *c22GrandpaState) GetPrecommits(round, _ uint64) ([]SignedVote, error) {
-	if v, ok := g.pcs[round]; ok {
+func (g *c22GrandpaState) GetPrecommits(round, set uint64) ([]SignedVote, error) {
+	if v, ok := g.pcs[c22SetRound{set, round}]; ok {
 		return v, nil
 	}
 	return nil, c22ErrNoPc
 }
-func (g *c22GrandpaState) GetPrevotes(round, _ uint64) ([]SignedVote, error) {
-	if v, ok := g.pvs[round]; ok {
+func (g *c22GrandpaState) GetPrevotes(round, set uint64) ([]SignedVote, error) {
+	if v, ok := g.pvs[c22SetRound{set, round}]; ok {
 		return v, nil
 	}
 	return nil, c22ErrNoPc
+}
+
+func c22Voters(keys []int) []Voter {
+	vs := make([]Voter, len(keys))
+	for i, k := range keys {
+		vs[i] = Voter{Key: *c22Key(k).Public().(*ed25519.PublicKey), ID: uint64(i)}
+	}
+	return vs
 }
 
 type c22Telemetry struct{}
@@ -339,12 +409,14 @@ type c22Voter struct {
 	finalised    []int
 }
 
-func c22NewVoter(idx int, voters []Voter, t *c22Tree) *c22Voter {
-	bs := &c22BlockState{tree: t, finByRound: map[uint64]common.Hash{0: t.headers[0].Hash()}}
+func c22NewVoter(idx int, w *c22World) *c22Voter {
+	t := w.tree
+	voters := c22Voters(w.sets[0])
+	bs := &c22BlockState{w: w, tree: t, finByRound: map[c22SetRound]common.Hash{{0, 0}: t.headers[0].Hash()}}
 	nw := &c22Network{}
 	svc := &Service{
 		blockState:         bs,
-		grandpaState:       &c22GrandpaState{pcs: map[uint64][]SignedVote{}, pvs: map[uint64][]SignedVote{}},
+		grandpaState:       &c22GrandpaState{bs: bs, pcs: map[c22SetRound][]SignedVote{}, pvs: map[c22SetRound][]SignedVote{}},
 		keypair:            c22Key(idx),
 		authority:          true,
 		network:            nw,
@@ -392,7 +464,21 @@ func (v *c22Voter) act(a engineAction) error {
 	return <-done
 }
 
+// member: is the key a voter of the set its Service is in?
+func (v *c22Voter) member() bool {
+	me := c22Pub(v.idx)
+	for _, x := range v.svc.state.voters {
+		if x.Key.AsBytes() == me {
+			return true
+		}
+	}
+	return false
+}
+
 func (v *c22Voter) prevote() (string, *VoteMessage) {
+	if !v.member() {
+		return "notauth", nil
+	}
 	if v.prevoted {
 		return "skip", nil
 	}
@@ -400,7 +486,7 @@ func (v *c22Voter) prevote() (string, *VoteMessage) {
 		return "pv=err", nil
 	}
 	vm := v.net.lastVote(prevote)
-	if vm == nil || vm.Round != v.svc.state.round {
+	if vm == nil || vm.Round != v.svc.state.round || vm.SetID != v.svc.state.setID {
 		return "pv=err", nil
 	}
 	v.prevoted = true
@@ -478,6 +564,9 @@ func (v *c22Voter) gate() string {
 }
 
 func (v *c22Voter) precommit() (string, *VoteMessage) {
+	if !v.member() {
+		return "notauth", nil
+	}
 	if !v.prevoted || v.precommitted {
 		return "skip", nil
 	}
@@ -494,7 +583,7 @@ func (v *c22Voter) precommit() (string, *VoteMessage) {
 		return "pc=err", nil
 	}
 	vm := v.net.lastVote(precommit)
-	if vm == nil || vm.Round != v.svc.state.round {
+	if vm == nil || vm.Round != v.svc.state.round || vm.SetID != v.svc.state.setID {
 		return "pc=err", nil
 	}
 	v.precommitted = true
@@ -502,6 +591,9 @@ func (v *c22Voter) precommit() (string, *VoteMessage) {
 }
 
 func (v *c22Voter) finalise() string {
+	if !v.member() {
+		return "notauth"
+	}
 	if !v.precommitted {
 		return "skip"
 	}
@@ -543,6 +635,10 @@ func (v *c22Voter) receive(vm *VoteMessage) string {
 		return "ok"
 	case errors.Is(err, ErrEquivocation):
 		return "eq"
+	case errors.Is(err, ErrSetIDMismatch):
+		return "set"
+	case errors.Is(err, ErrVoterNotFound):
+		return "notvoter"
 	case errors.Is(err, errRoundOutOfBounds), errors.Is(err, errRoundsMismatch):
 		return "round"
 	case errors.Is(err, errVoteFromSelf):
@@ -553,9 +649,9 @@ func (v *c22Voter) receive(vm *VoteMessage) string {
 	return "err"
 }
 
-func c22ByzVote(key int, stage Subround, round int, t *c22Tree, blk int) *VoteMessage {
+func c22ByzVote(key int, stage Subround, set, round int, t *c22Tree, blk int) *VoteMessage {
 	vote := Vote{Hash: t.headers[blk].Hash(), Number: uint32(t.headers[blk].Number)}
-	msg, err := scale.Marshal(FullVote{Stage: stage, Vote: vote, Round: uint64(round), SetID: 0})
+	msg, err := scale.Marshal(FullVote{Stage: stage, Vote: vote, Round: uint64(round), SetID: uint64(set)})
 	if err != nil {
 		panic(err)
 	}
@@ -565,7 +661,7 @@ func c22ByzVote(key int, stage Subround, round int, t *c22Tree, blk int) *VoteMe
 	}
 	return &VoteMessage{
 		Round: uint64(round),
-		SetID: 0,
+		SetID: uint64(set),
 		Message: SignedMessage{
 			Stage:       stage,
 			BlockHash:   vote.Hash,
@@ -614,13 +710,13 @@ func c22Run(line string) string {
 		switch k {
 		case "n":
 			n, ok = c22Num(val)
-			ok = ok && n >= 1 && n <= 10
+			ok = ok && n >= 1 && n <= 12
 		case "byz":
 			ok = true
 			if val != "-" {
 				for _, s := range strings.Split(val, ",") {
 					i, ok2 := c22Num(s)
-					if !ok2 || i > 9 || byz[i] {
+					if !ok2 || i > 15 || byz[i] {
 						return "bad-op"
 					}
 					byz[i] = true
@@ -636,11 +732,6 @@ func c22Run(line string) string {
 	}
 	if len(seen) != 3 {
 		return "bad-op"
-	}
-	for i := range byz {
-		if i >= n {
-			return "bad-op"
-		}
 	}
 	var ops [][]string
 	if body := strings.TrimSpace(line[bar+1:]); body != "" {
@@ -660,20 +751,54 @@ func c22Run(line string) string {
 		k, ok := c22Tagged(s, 'b')
 		return k, ok && k < len(tree.headers)
 	}
+	keyList := func(s string) ([]int, bool) { // v1,v4,..: distinct keys, honest ones among the initial voters
+		var ks []int
+		seen := map[int]bool{}
+		for _, x := range strings.Split(s, ",") {
+			k, ok := c22Tagged(x, 'v')
+			if !ok || k > 15 || seen[k] || (!byz[k] && k >= n) {
+				return nil, false
+			}
+			seen[k] = true
+			ks = append(ks, k)
+		}
+		return ks, len(ks) >= 1 && len(ks) <= 12
+	}
+	setsV := [][]int{c22Range(n)} // the sets defined so far, in the order of the schedule
+	memberOf := func(j, t int) bool {
+		for _, k := range setsV[t] {
+			if k == j {
+				return true
+			}
+		}
+		return false
+	}
 	for _, f := range ops {
 		ok := false
 		switch {
+		case len(f) == 3 && f[0] == "chg":
+			_, ok1 := block(f[1])
+			ks, ok2 := keyList(f[2])
+			ok = ok1 && ok2 && len(setsV) < 8
+			if ok {
+				setsV = append(setsV, ks)
+			}
+		case (len(f) == 5 || len(f) == 6) && f[0] == "bv" && (f[1] == "pv" || f[1] == "pc"):
+			j, ok1 := c22Tagged(f[2], 'v')
+			t, okt := 0, true
+			if len(f) == 6 {
+				t, okt = c22Tagged(f[3], 's')
+			}
+			q, ok2 := c22Tagged(f[len(f)-2], 'r')
+			_, ok3 := block(f[len(f)-1])
+			ok = ok1 && j <= 15 && okt && t <= 20 && ok2 && q <= 20 && ok3 &&
+				(byz[j] || (t < len(setsV) && !memberOf(j, t)))
 		case len(f) == 3 && f[0] == "best":
 			_, ok1 := honest(f[1])
 			_, ok2 := block(f[2])
 			ok = ok1 && ok2
 		case len(f) == 2 && (f[0] == "pv" || f[0] == "pc" || f[0] == "fin"):
 			_, ok = honest(f[1])
-		case len(f) == 5 && f[0] == "bv" && (f[1] == "pv" || f[1] == "pc"):
-			j, ok1 := c22Tagged(f[2], 'v')
-			q, ok2 := c22Tagged(f[3], 'r')
-			_, ok3 := block(f[4])
-			ok = ok1 && j < n && byz[j] && ok2 && q <= 20 && ok3
 		case len(f) == 3 && f[0] == "d":
 			id, ok1 := c22Tagged(f[1], 'm')
 			_, ok2 := honest(f[2])
@@ -684,14 +809,11 @@ func c22Run(line string) string {
 		}
 	}
 
-	voters := make([]Voter, n)
-	for i := range voters {
-		voters[i] = Voter{Key: *c22Key(i).Public().(*ed25519.PublicKey), ID: uint64(i)}
-	}
+	world := &c22World{tree: tree, sets: [][]int{c22Range(n)}}
 	vs := make([]*c22Voter, n)
 	for i := range vs {
 		if !byz[i] {
-			vs[i] = c22NewVoter(i, voters, tree)
+			vs[i] = c22NewVoter(i, world)
 		}
 	}
 	var msgs []*VoteMessage // message id -> vote (nil: the voter did not vote)
@@ -718,15 +840,25 @@ func c22Run(line string) string {
 			res, vm := vs[i].precommit()
 			msgs = append(msgs, vm)
 			out = append(out, res)
+		case "chg":
+			k, _ := block(f[1])
+			ks, _ := keyList(f[2])
+			world.changes = append(world.changes, k)
+			world.sets = append(world.sets, ks)
+			out = append(out, "ok")
 		case "bv":
 			j, _ := c22Tagged(f[2], 'v')
-			q, _ := c22Tagged(f[3], 'r')
-			k, _ := block(f[4])
+			t := 0
+			if len(f) == 6 {
+				t, _ = c22Tagged(f[3], 's')
+			}
+			q, _ := c22Tagged(f[len(f)-2], 'r')
+			k, _ := block(f[len(f)-1])
 			st := prevote
 			if f[1] == "pc" {
 				st = precommit
 			}
-			msgs = append(msgs, c22ByzVote(j, st, q, tree, k))
+			msgs = append(msgs, c22ByzVote(j, st, t, q, tree, k))
 			out = append(out, "ok")
 		case "d":
 			id, _ := c22Tagged(f[1], 'm')
